@@ -31,8 +31,8 @@ from ..canon import fingerprint
 from ..explorer import Step
 
 PROPERTY = "C01"
-ALPHABET = "profiles P1..P11 (see module docstring and PROFILES); deliveries: next frame, first 1 / 9 bytes of next frame, flush"
-QUICK_DEPTH = {"P4": 4, "P5": 4, "P1": 5, "P2": 5, "P3": 6, "P6": 6, "P7": 6, "P8": 6, "P9": 6, "P10": 6, "P11": 5}
+ALPHABET = "profiles P1..P12 (see module docstring and PROFILES); deliveries: next frame, first 1 / 9 bytes of next frame, flush"
+QUICK_DEPTH = {"P4": 4, "P5": 4, "P1": 5, "P2": 5, "P3": 6, "P6": 6, "P7": 6, "P8": 6, "P9": 6, "P10": 6, "P11": 5, "P12": 4}
 BOUNDS = {"quick": "profiles to depth %s, <=1 deviation (a raising call, or one window of non-lock-step delivery), two start states" % (sorted(QUICK_DEPTH.items()),), "thorough": "depth 7, <=2 deviations (or time budget, reported)"}
 C, S = P.C, P.S
 REQ = H.REQ_POST + [(b"X-Mixed", b" padded "), (b"accept", b"*/*")]
@@ -43,6 +43,7 @@ HEAD = [(b":method", b"HEAD"), (b":scheme", b"https"), (b":path", b"/h"), (b":au
 RESPCL = H.RESP + [(b"content-length", b"5"), (b"x-a", b"1")]
 RESP304 = [(b":status", b"304"), (b"etag", b"xyz")]
 REQCL = H.REQ_POST + [(b"content-length", b"5"), (b"accept", b"*/*")]
+REQCONN = H.REQ_POST + [(b"Connection", b"close"), (b" Keep-Alive ", b"5"), (b"Upgrade\t", b"h2c"), (b"TE", b"trailers"), (b"accept", b"*/*")]
 REQBIG = H.REQ_POST + [(b"x-big", b"B" * 20000), (b"accept", b"*/*")]
 N = P.norm
 
@@ -134,6 +135,9 @@ def calls():
     # P11: MAX_FRAME_SIZE raised together with another setting in one call, then frames of the new size
     for x, p in ((C, "c"), (S, "s")):
         add(p + ":set-mfs+mhls", x, "update_settings", ({6: 100000, 5: 32768},), {}, [("settings", ((5, 32768), (6, 100000)))])
+    # P12 (the client does not validate what it sends): connection-specific fields written the HTTP/1.1 way are removed by the
+    # documented normalisation all the same - the peer never sees them
+    add("c:req1conn", C, "send_headers", (1, REQCONN), {}, [hdr(1, "request", REQCONN, False)])
     add("c:prio3-w1", C, "prioritize", (3,), {"weight": 1}, [("priority", 3, 1, 0, False)])
     add("c:req7prio-w1", C, "send_headers", (7, REQ), {"priority_weight": 1, "priority_exclusive": True, "end_stream": True},
         [hdr(7, "request", REQ, True), ("priority", 7, 1, 0, True)])
@@ -156,6 +160,7 @@ PROFILES = {
     "P8": ["c:reqbig1", "c:req1", "s:resp1", "s:fill1", "c:ack1-2000", "c:ack1-40000", "s:data1-2000", "s:data1", "c:data1",
            "s:data1pad", "c:incr"],
     "P9": ["c:req1", "s:resp1", "s:set-mfs", "s:set-mfs-16384", "c:data1-20000", "c:set-mfs", "c:set-mfs-16384", "s:data1-20000"],
+    "P12": ["c:req1conn", "c:req1", "s:resp1", "s:resp1es", "c:data1", "c:end1"],
     "P11": ["c:req1", "s:resp1", "s:set-mfs+mhls", "c:set-mfs+mhls", "c:data1-20000", "s:data1-20000"],
     # every body-carrying call below sends the announced five bytes; BODY_GUARD lets each side send them once and end
     # the message only afterwards, so that every program is valid traffic
@@ -166,6 +171,7 @@ PROFILES = {
 }
 
 
+CLIENT_CFG = {"P12": {"validate_outbound_headers": False}}
 # P10 only: label -> (body must already have been sent, this call sends it)
 BODY_GUARD = {"hello1": (False, True), "hello1pad": (False, True), "hello1pades": (False, True), "end1": (True, False),
               "trailers1": (True, False)}
@@ -185,7 +191,7 @@ class Spec:
     def initial(self):
         out = []
         for nm, hs in (("handshaken", True), ("handshake-in-flight", False)):
-            st = P.PairState(handshake=hs)
+            st = P.PairState(handshake=hs, client_cfg=CLIENT_CFG.get(self.profile))
             st.budget = self.dev
             st.window = not hs
             st.body = [False, False]
